@@ -48,16 +48,26 @@ TRUSTED = ['XLA / jax.numpy numerics on small dyadic values are exact (exercised
            'jnp.where forward semantics = selection; jax.pmap = map over the leading axis (exercised, not modelled)',
            'threading.local gives each thread its own attribute dictionary (exercised by the thread cases)',
            'JAX buffer donation happens only at the donate_argnums call sites; jax.Array.is_deleted() reports it',
+           'tools/anchors/for_each_client.py: structural translator of _blockify / the pmap backend / the jit donation '
+           'sites / the backend-choice code (fail-closed recogniser + translate.Ctx for the index expressions)',
            'tools/harness/c02_worker.py (DSL -> jax functions, observation canonicaliser) and the script flattener _flatten']
 ASSUMPTIONS = ['client ids are hashable and pairwise distinct in the generated collections (the theorem itself is a '
                'Permutation statement and does not need distinctness)',
                'all batches of one call have the same pytree structure / shapes (pmap stacks them), block_size >= 1',
                'client_init / client_step / client_final are pure jax-traceable functions of their arguments',
-               'section variables of the theorems: init, step, final, zeros_like functions are ARBITRARY (no hypothesis)']
+               'section variables of the theorems: init, step, final, zeros_like functions are ARBITRARY (no hypothesis); '
+               'C02_jit_equals_seq assumes jnp.copy is the identity on values',
+               'C02_caller_buffers_not_donated: on a runtime that forwards pass-through outputs as the input buffer, '
+               'client_step does not return its batch as part of the new state (C02_step_alias_refuted shows the '
+               'hypothesis is needed; the installed JAX 0.11.2 never forwards, so there it is vacuous)']
 PARTIAL = ['real XLA donation and pmap scheduling are runtime behaviour: the model exhibits donation only as the abstract '
-           'effect at the donate_argnums call sites (store model); validity of the caller buffers is additionally '
-           'observed on every case (is_deleted / bit-equality)',
-           'dtype and shape of outputs are judged by the oracle only (the Coq model works on flattened leaves)']
+           'effect at the donate_argnums call sites (store model, jit backend); validity of the caller buffers is '
+           'additionally observed on every case and every backend (is_deleted / bit-equality)',
+           'dtype and shape of outputs are judged by the oracle only (the Coq model works on flattened leaves)',
+           'the zeroing of masked step results in p_client_step is modelled but neither anchored nor observable (results '
+           'of padding batches are always truncated away): removing it is an equivalent change',
+           'jit_client_init without the copy is unobservable on the installed JAX (jit returns fresh buffers); it is caught '
+           'by the translator tie (jit_init_copies) only, reported as broken tie without failing input']
 CASE_TIMEOUT = 240
 
 HERE = os.path.dirname(os.path.abspath(__file__))
@@ -169,6 +179,7 @@ def _gen_run(rng, k, D, n, profile, generic=False, stress=True, zero_batch=False
     batches = [_gen_batch(rng, m, ny, generic, zero_batch and rng.random() < 0.3) for _ in range(nb)]
     clients.append([cid, batches, [_gen_leafvals(rng, lp, generic) for lp in leaves]])
   return {'kind': 'run', 'k': k, 'D': D, 'wsr': rng.random() < 0.7, 'jaxin': rng.random() < 0.6,
+          'lazy': rng.random() < 0.3, 'idkind': rng.choice(['int', 'int', 'bytes', 'str']),
           'tol': 1 if generic else 0, 'prog': prog, 'shared': [_gen_leafvals(rng, lp, generic) for lp in leaves],
           'clients': clients}
 
@@ -241,10 +252,6 @@ def _gen_threads(rng, k):
   order = [t for t, c in enumerate(counts) for _ in range(c)]
   rng.shuffle(order)
   return {'kind': 'threads', 'k': k, 'nthreads': n, 'scripts': scripts, 'order': order}
-
-
-def device_counts(tier):
-  return [1, 3] if tier == 'quick' else list(range(1, 9))
 
 
 def _gen_cases(tier, rng):
@@ -658,6 +665,8 @@ def _sort_key(y):
 
 
 def _obs_results(o, wsr):
+  if any(not (y['id'] is None or isinstance(y['id'], int)) for y in o['yields']):
+    return None
   ys = sorted(o['yields'], key=_sort_key)      # stable
   items = []
   for y in ys:
@@ -763,3 +772,7 @@ def shrink(case):
       yield {**case, 'clients': cl[:i] + [[c[0], c[1][:-1], c[2]]] + cl[i + 1:]}
   if case['jaxin']:
     yield {**case, 'jaxin': False}
+  if case.get('lazy'):
+    yield {**case, 'lazy': False}
+  if case.get('idkind', 'int') != 'int':
+    yield {**case, 'idkind': 'int'}
